@@ -79,6 +79,8 @@ def parseOp (ws : List String) : Option Op :=
   | ["sliceforeign", i] => (n i).map fun i => .slice i 1 0     -- always rejected: both asserts of slice_ref guard it
   | ["splitoff", i, k] => do pure (.splitOff (← n i) (← n k))
   | ["splitto", i, k] => do pure (.splitTo (← n i) (← n k))
+  -- Buf::copy_to_bytes: Bytes = split_to(n); BytesMut = split_to(n).freeze() (the freeze is added in judgeBlock)
+  | ["ctb", i, k] => do pure (.splitTo (← n i) (← n k))
   | ["split", i] => (n i).map .split
   | ["trunc", i, k] => do pure (.truncate (← n i) (← n k))
   | ["clear", i] => (n i).map .clear
@@ -95,6 +97,7 @@ def parseOp (ws : List String) : Option Op :=
   | ["extendref", i, h] => do pure (.extend (← n i) (← parseHex h))    -- Extend<&u8>
   | ["putslice", i, h] => do pure (.extend (← n i) (← parseHex h))     -- BufMut::put_slice
   | ["resize", i, k, b] => do pure (.resize (← n i) (← n k) (← n b))
+  | ["putbytes", i, _, k] => do pure (.reserve (← n i) (← n k))       -- refined in judgeBlock (needs the current length)
   | ["unsplit", i, j] => do pure (.unsplit (← n i) (← n j))
   | ["setbyte", i, k, b] => do pure (.setByte (← n i) (← n k) (← n b))
   | ["fillspare", i, b] => do pure (.fillSpare (← n i) (← n b))
@@ -389,7 +392,21 @@ def judgeBlock (s : JS) : IO JS := do
                     opsSeen := if s.opsSeen.contains (opw.headD "") then s.opsSeen else (opw.headD "") :: s.opsSeen }
   match parseOp opw, b.outcome with
   | none, _ | _, none => emit s false s!"bad-trace SEQ unparsable op {b.opText.replace " " "_"}"
-  | some op, some out =>
+  | some op0, some out =>
+  -- BufMut::put_bytes(val, cnt) on a BytesMut = resize(len + cnt, val); an unrepresentable length is reserve's overflow panic
+  let op : Op := match opw with
+    | ["putbytes", i, b, k] =>
+      (match i.toNat?, b.toNat?, k.toNat? with
+       | some i, some b, some k =>
+         let len := ((s.prev.find? (·.id == i)).map (·.len)).getD 0
+         if len + k ≥ W then .reserve i k else .resize i (len + k) b
+       | _, _, _ => op0)
+    | _ => op0
+  -- second half of a composite call: copy_to_bytes on a BytesMut freezes the part it split off
+  let op2 : Option Op := match opw, out with
+    | ["ctb", i, _], .ok (.handle j) =>
+      if ((i.toNat?.bind fun i => s.prev.find? (·.id == i)).map (·.kind)) == some .mut then some (.freeze j) else none
+    | _, _ => none
   let s := { s with npanics := if out == .panic then s.npanics + 1 else s.npanics }
   -- allocator-level facts (C02)
   match b.evs.find? (·.bad != 0) with
@@ -401,7 +418,8 @@ def judgeBlock (s : JS) : IO JS := do
     emit s true s!"oracle-fail {if out == Outc.panic then p ++ "+C13" else p} op={opw.headD "?"} what={msg.replace " " "_"}"
   | none =>
   -- C01: contents against the independent-Vec reference model
-  let spec' := match out with | .ok v => Spec.stepOk op v s.spec | .panic => Spec.stepPanic op s.spec
+  let spec1 := match out with | .ok v => Spec.stepOk op v s.spec | .panic => Spec.stepPanic op s.spec
+  let spec' := match op2 with | some o2 => Spec.stepOk o2 .unit spec1 | none => spec1
   let specObs : List (Nat × Kind × String × Nat) :=
     (spec'.zipIdx).filterMap fun (oh, i) => oh.map fun h => (i, h.kind, contentsStr h.val, h.val.length)
   let implObs := b.obs.map fun o => (o.id, o.kind, o.contents, o.len)
@@ -426,7 +444,15 @@ def judgeBlock (s : JS) : IO JS := do
   | none =>
   -- run the model
   let env : Env := ⟨fun _ => false⟩
-  match step s.cfg env op m with
+  let r1 := step s.cfg env op m
+  let r12 : R Val := match op2, r1 with
+    | some o2, .ok v m1 =>
+      (match step s.cfg env o2 m1 with
+       | .ok _ m2 => .ok v m2
+       | .panic m2 => .panic m2
+       | .ub w m2 => .ub w m2)
+    | _, r => r
+  match r12 with
   | .ub why m' =>
     let _ := m'
     emit s false s!"model-diff SEQ op={opw.headD "?"} model-reports-ub={why.replace " " "_"}"
